@@ -189,7 +189,8 @@ func c11Tags(sp *Spec) []string {
 func init() {
 	register(&Family{
 		Property: "C11",
-		Rule: "all histories up to the depth over {IncrBy 1, IncrBy total, SetCurrent total, SetTotal(-1,true), EnableTriggerComplete, Abort(false), Abort(true)} from totals {0,2}, followed by ctx cancel so every bar ends, in non-refreshing and auto-refresh containers; " +
+		Rule: "also: a filler error on a frame drawn after the bar reached its final state (the reported state must stick through the error shutdown); " +
+			"all histories up to the depth over {IncrBy 1, IncrBy total, SetCurrent total, SetTotal(-1,true), EnableTriggerComplete, Abort(false), Abort(true)} from totals {0,2}, followed by ctx cancel so every bar ends, in non-refreshing and auto-refresh containers; " +
 			"an observer thread reads (Completed, Aborted) twice, waits for the bar and reads again, main reads twice after Wait; every schedule within the deviation bound places the reads, render cycles and the bar goroutine's exit anywhere. " +
 			"Oracle: never both; Completed sticky with Aborted false; Aborted sticky with Completed false; after Bar.Wait (same thread) and after Progress.Wait exactly one; the same on the Statistics seen by the filler in successive frames.",
 		Items: func(tier string) []Item {
